@@ -348,6 +348,8 @@ func TestC01(t *testing.T) {
 	if t.Failed() {
 		return
 	}
+	// concurrent part: one AEAD object per construction shared by 8 goroutines
+	c01Concurrent(c, t, paths)
 	// bounded-exhaustive part: every plaintext length 0..1100 x AD lengths, both paths
 	ads := []int{0, 13}
 	if ev.Thorough() {
